@@ -20,6 +20,7 @@
 
 #include "statement_include.h"
 #include "exception_parse.h"
+#include "exception_runtime.h"
 #include "parse_expression.h"
 #include "parse_statement.h"
 #include "parser.h"
@@ -85,10 +86,21 @@ void INCLUDEStatement::loadSource(Parser& p, Context& ctx)
 
   if (_exp == nullptr)
     throw ParseError(EXC_PARSE_INV_EXPRESSION);
-  Value& val = _exp->value(ctx);
-  if (val.isNull())
-    throw ParseError(EXC_PARSE_INV_EXPRESSION);
-  FILE * progfile = ::fopen(val.literal()->c_str(), "r");
+  /* the path is evaluated at compile time: a failure is a compile error */
+  std::string path;
+  try
+  {
+    Value& val = _exp->value(ctx);
+    if (val.isNull())
+      throw ParseError(EXC_PARSE_INV_EXPRESSION);
+    path.assign(*val.literal());
+  }
+  catch (RuntimeError& re)
+  {
+    ctx.purgeWorkingMemory();
+    throw ParseError(EXC_PARSE_OTHER_S, re.what());
+  }
+  FILE * progfile = ::fopen(path.c_str(), "r");
   if (progfile == nullptr)
     throw ParseError(EXC_PARSE_OTHER_S, "Failed to open file for read.");
 
@@ -133,7 +145,7 @@ void INCLUDEStatement::loadSource(Parser& p, Context& ctx)
     for (auto s : statements)
       delete s;
     ::fclose(progfile);
-    throw ParseError(EXC_PARSE_INCLUDE_FAILED_S, val.literal()->c_str());
+    throw ParseError(EXC_PARSE_INCLUDE_FAILED_S, path.c_str());
   }
 
   if (np)
